@@ -158,7 +158,7 @@ def case_features(case, objs=None) -> List[str]:
         return dec(v) if f == "o" else (tuple(v) if f == "tags" else v)
     empty_vars = {i for i, v in enumerate(case["vars"])
                   if not [j for j in case["doms"][v["dom"]]
-                          if case["ents"][j].get("cls", "Ent") in ("Ent", "EntSub", "EntPlain", "EntV")
+                          if case["ents"][j].get("cls", "Ent") in ("Ent", "EntSub", "EntSubSub", "EntPlain", "EntV")
                           and all(_rec_val(case["ents"][j], f) == dec(c) for f, c in v.get("kw", []))]}
     if empty_vars:
         def under(n, inside):
